@@ -222,6 +222,11 @@ func vxC02Response() {
 	}
 	vx.Assert(vxC02Resolves == 1, "the (not blocked) question is resolved upstream once")
 	res := pctx.Res
+	vx.Note(res == vxC02Upstream)
+	if res != nil {
+		vx.Note(res.Rcode)
+		vx.Note(len(res.Answer))
+	}
 
 	// ---- reference ----
 	filteringOn := globalFiltering
